@@ -139,6 +139,13 @@ def compare_state(part, w, st, c, hist, emb, init_name):
         part.violation(f"DF_AffineExact/{opname(c)}/off-lattice", "a coordinate of a live object is not the exact image of the specification's (could not be projected)",
                        _wit(hist, emb, init_name, detail=str(ex)))
         return False
+    except W.TooBig as ex:
+        # the states of the model stay within the logged range: an object far beyond it is not where the model has it
+        kind = ex.args[0] if ex.args else "region"
+        clause = "DF_SubregionsWellFormed" if kind == "subregion" else "DF_AffineExact"
+        part.violation(f"{clause}/{opname(c)}/beyond-range", f"a live {kind} has coordinates far beyond every state of the model after this history",
+                       _wit(hist, emb, init_name, detail=repr(ex.args[1:])[:300]))
+        return False
     want, wroots = W.spec_heap(st["heap"]), W.spec_roots(st["roots"])
     ok = True
     for o, msg in anomalies:
@@ -386,6 +393,13 @@ def run_traces(ctx, df, ntraces, length, batches):
     for k in range(ntraces):
         try:
             traces.append(T.gen_trace(df, rnd, k + 1, rnd.choice(embs), ctx.scratch, rnd.randint(length[0], length[1])))
+        except W.TooBig as ex:
+            # only the projection of the freshly BUILT objects lets this through (inside a program it ends the program): the mesh
+            # does not hold what the constructor / the subregion setter was given
+            kind = ex.args[0] if ex.args else "region"
+            clause = "DF_SubregionsWellFormed" if kind == "subregion" else "DF_AffineExact"
+            ctx.violation(f"{clause}/construct/beyond-range", f"a {kind} of a freshly built mesh is not where it was put (it follows an object the caller kept)",
+                          {"detail": repr(ex.args[1:])[:300]})
         except W.OffLattice as ex:
             ctx.violation("DF_AffineExact/trace/off-lattice", "a coordinate of a live object is not a small rational of the lattice (could not be projected)", {"detail": str(ex)})
     traces = [t for t in traces if t["ev"]]
